@@ -191,6 +191,12 @@ func All() []Op {
 			err := c.WriteSpec(raw, "written")
 			return Result{Op: "WriteSpec", Obs: fmt.Sprint(err)}
 		}},
+		// the same switch from state A to state B as Switch+Refresh, but made through the library's own
+		// writer: WriteSpec must publish the new multi.json in one step as well
+		{"WriteSpec(state B)", false, func(w *World, c *cdi.Cache) Result {
+			err := c.WriteSpec(SpecB(), "multi.json")
+			return Result{Op: "WriteSpec(state B)", Obs: fmt.Sprint(err)}
+		}},
 		{"RemoveSpec", false, func(w *World, c *cdi.Cache) Result {
 			err := c.RemoveSpec("written")
 			return Result{Op: "RemoveSpec", Obs: fmt.Sprint(err)}
@@ -224,6 +230,15 @@ func All() []Op {
 			return Result{Op: "Mkdir(d2)+ListDevices+Rmdir(d2)", Obs: fmt.Sprint(n > 0)}
 		}},
 	}
+}
+
+// SpecB is the content of multi.json in state B, as a Spec to be written through the cache.
+func SpecB() *specs.Spec {
+	sp := &specs.Spec{Version: "0.5.0", Kind: Kind, ContainerEdits: specs.ContainerEdits{Env: []string{"SPEC_B=1"}}}
+	for _, d := range []string{"b1", "b2", "b3"} {
+		sp.Devices = append(sp.Devices, specs.Device{Name: d, ContainerEdits: specs.ContainerEdits{Env: []string{"SRC_" + d + "=B"}}})
+	}
+	return sp
 }
 
 func contains(l []string, x string) bool {
